@@ -134,6 +134,7 @@ type loopInfo struct {
 }
 
 type Engine struct {
+	privAlloc map[string]*ssa.Alloc // private cells ($priv:n): captured locals only this frame and its own closures can reach
 	prog            *ssa.Program
 	db              *SpecDB
 	decls           []string
@@ -154,6 +155,7 @@ type Engine struct {
 	lockOrderProps  []string
 	guards          map[*ssa.Global]*guard
 	sharedAddrs     []*Addr         // the locations declared shared (thread-modular mode)
+	loopPriv        []string        // private cells the loop being cut may write (forgotten at its head)
 	loopGhostWriter bool            // the loop being cut contains a call whose contract writes ghost state
 	initialPkgs     map[string]bool // import paths of the packages loaded for verification
 	extPolicy       string          // "" or "preserve-ghosts": how calls leaving the verified code without a contract are treated
@@ -197,6 +199,7 @@ func (x *Engine) reset(fn string) {
 	x.script = nil
 	x.n = 0
 	x.compSort = map[string]string{}
+	x.privAlloc = map[string]*ssa.Alloc{}
 	x.strs = map[string]string{}
 	x.curFn = fn
 	x.degraded = nil
@@ -617,7 +620,7 @@ func (x *Engine) havocAll(st *State) {
 	oldAlloc := x.get(st, "$alloc")
 	keep := map[string]string{}
 	for k, v := range st.h {
-		if strings.HasPrefix(k, "$defer:") || strings.HasPrefix(k, "$rec:") || strings.HasPrefix(k, "$ret:") {
+		if strings.HasPrefix(k, "$defer:") || strings.HasPrefix(k, "$rec:") || strings.HasPrefix(k, "$ret:") || strings.HasPrefix(k, "$priv:") {
 			keep[k] = v
 		}
 	}
@@ -806,7 +809,7 @@ func (x *Engine) loadAddr(st *State, a *Addr) string {
 		return fmt.Sprintf("(select %s %s)", x.get(st, a.Key), a.Ref)
 	case "elem":
 		return fmt.Sprintf("(select (select %s %s) %s)", x.get(st, a.Key), a.Ref, a.Idx)
-	case "global":
+	case "global", "priv":
 		return x.get(st, a.Key)
 	}
 	panic("bad addr")
@@ -819,7 +822,7 @@ func (x *Engine) storeAddr(st *State, a *Addr, v string) {
 	case "elem":
 		arr := x.get(st, a.Key)
 		x.set(st, a.Key, fmt.Sprintf("(store %s %s (store (select %s %s) %s %s))", arr, a.Ref, arr, a.Ref, a.Idx, v))
-	case "global":
+	case "global", "priv":
 		x.set(st, a.Key, v)
 	default:
 		panic("bad addr")
